@@ -10,213 +10,46 @@ TRUST = ("Trusted base: clang 14 front end and clang::CFG, the carqfacts plugin,
          "engine, the frozen specification tables and idiom lists in the checker. Decides the "
          "structural clauses named in level_claimed.text, not the runtime behaviour.")
 
-CHECKS = {
-    "C20": dict(
-        technique="static analysis: canonical-expression sibling agreement + who-may-write + spec tables over clang AST/CFG facts",
-        text="Structural clauses: all stores to filter bits are monotone or buffer initialisation; "
-             "block_check tests exactly the (word,bit) block_insert sets and every 'false' is guarded "
-             "by that test; insert/check select the same block; typed pairs hash identical bytes with "
-             "seed 0; write/read/merge preserve bits under size guards; SALT, block geometry, block "
-             "index formula and the XXH64 constant fingerprint equal the specification; XXH64 consumes its input in the "
-             "reference schedule for every length 0..200 (32-byte stripes, 8-byte words, one 4-byte word, bytes; skeleton "
-             "execution); every typed insert reaches "
-             "insert_hash on every path and insert_hash/check_hash have the same early exits (check answers true). Not decided: "
-             "XXH64 value equality for all inputs, false-positive rate.",
-        ref="DESIGN.md §3 C20"),
+AE = "abstract execution of the source by the checker's constant-propagation interpreter (configuration values concrete, data Unknown, boundary callees hooked, all paths)"
+TECH = {
+    "C01": "static analysis: " + AE + " for the PLAIN codec tables, column/row-group finalize traces and codec selection; status liveness on clang CFG; encoder typestate; cursor-skeleton execution with abstract length fields",
+    "C02": "static analysis: per-enum-value evaluation of the size tables, who-may-write over struct fields, " + AE + " of the page cursor, index-space provenance typing on the resolved AST",
+    "C03": "static analysis: " + AE + " of the mmap and stdio loaders on the same scenarios (sibling agreement of verdicts, consumers and reader state; ownership tag of published views); typestate on the ownership tag along CFG paths elsewhere",
+    "C04": "static analysis: " + AE + " of the mapped loaders over a grid of lying offsets/sizes with the real extent predicates; count-validation dominance; recursion guards on the call graph; path-sensitive ownership; refill-progress rule; index-argument and feasible-path error-report rules",
+    "C05": "static analysis: Thrift grammar extraction vs frozen parquet.thrift, enum tables, " + AE + " of the page finaliser / row-group finalize / row-group flush, lazy-init dominance, cross-unit declaration agreement",
+    "C06": "static analysis: " + AE + " per enum value of decompress_page, carquet_decode_plain, the v1 data-page reader and the page loaders; exhaustive evaluation of the level-width functions over 0..32767; spec tables; byte-order idiom rule",
+    "C07": "static analysis: OpenMP parallel-region effect analysis over AST + whole-program call graph (dispatch slots resolved)",
+    "C08": "static analysis: zone-style cursor-bounds dataflow on clang CFG (helper extents, derived pointers), cursor-skeleton execution of count-driven decoders, array-index invariants, recursion, ownership (incl. zlib streams) and refill-progress rules",
+    "C09": "static analysis: dominance of capacity guards over stores, codec-pair table by " + AE + ", constant range of emitted offsets, overlap-copy guards, deflate parameter vs bound agreement",
+    "C11": "static analysis: encoder typestate on the pad store and " + AE + " of the hybrid encoder's resting states; cursor-skeleton execution of count-driven codecs; implicit-narrowing rule on the typed AST",
+    "C13": "static analysis: Thrift grammar extraction from writer/parser ASTs, table agreement with a frozen parquet.thrift, " + AE + " of the header codecs over their whole input space and of the LogicalType union, CFG must-pass-through and depth-balance dataflow",
+    "C14": "static analysis: " + AE + " of the four page loaders over CRC scenarios and of the CRC entry points with the core hooked; lazy-init dominance; cursor-skeleton execution of the CRC routine over lengths 0..80",
+    "C15": "static analysis: dispatch-table extraction + cross-unit prototype agreement; " + AE + " of the wrappers with a seeded table; cursor-skeleton execution of every kernel over all counts (buffer contents unknown); lane-width lint on intrinsic dataflow; overlap-copy guards",
+    "C16": "static analysis: " + AE + " of the pruning predicates with real integer bounds over every ordering of probe/min/max, of the comparator tables with comparators hooked, of the statistics builder and index builder; min/max polarity dataflow; NaN-guard dominance",
+    "C17": "static analysis: " + AE + " of the schema walk on its defining cases and of the leaf-adding entry points per repetition value; LogicalType union tables; who-may-write and must-pass-through on the leaf arrays; units rule on byte offsets",
+    "C18": "static analysis: call-result liveness on clang CFG, fwrite short-count rule, " + AE + " of close with a failure injected at every step and of the three open paths over sizes x magic outcomes x footer lengths",
+    "C19": "static analysis: NULL-test-before-use (feasible paths) and status liveness on clang CFG with call-graph may-allocate summaries; NULL-branch failure rule; growth atomicity rule; path-sensitive ownership",
+    "C20": "static analysis: canonical-expression sibling agreement + who-may-write + spec tables over clang AST/CFG facts; " + AE + " of create/from_data geometry and of the XXH64 schedule",
 }
+NOTES = {"C07": "Memory-model assumption for the accepted lazy-init idiom: x86-TSO, no compiler reordering across the flag store."}
 
-CHECKS["C13"] = dict(
-    technique="static analysis: Thrift grammar extraction from writer/parser ASTs, table agreement with a frozen parquet.thrift, CFG must-pass-through and depth-balance dataflow",
-    text="Table clauses: every (struct, field id, wire type, member, presence flag, list element) written by "
-         "parquet_types.c/page_index.c agrees with the parser's case for that id and with parquet.thrift; "
-         "required fields unconditional; unknown fields skipped with their own type in every parser loop; "
-         "thrift_skip exhaustive over the 13 wire types; struct begin/end balanced on all non-error paths; "
-         "last_field_id updated on every field-yielding path of both header codecs; short/long header forms "
-         "complementary; zigzag on both sides; every field-header read/write runs inside a field-id frame pushed by "
-         "struct_begin in the same function (also when a struct is only skipped). Not decided: value equality for extreme integers/strings, "
-         "bytes consumed = produced.",
-    ref="DESIGN.md §3 C13")
 
-CHECKS["C18"] = dict(
-    technique="static analysis: call-result liveness on clang CFG, must-pass-through and dominance of validation guards",
-    text="Structural clauses: every stdio result in file_writer.c/file_reader.c is consumed on every path; "
-         "after the trailing magic every status-OK path of carquet_writer_close passes a checked "
-         "fflush/fclose and their failure is folded into the returned status; in the three open paths the "
-         "minimum-size, trailing-magic and footer-length guards (with error exits) dominate "
-         "parquet_parse_file_metadata and build_schema runs only after the parse status was tested; abort "
-         "closes then removes, depending only on {owns_file, file, path}. Not decided: that every proper prefix is rejected (depends on byte values).",
-    ref="DESIGN.md §3 C18")
-CHECKS["C19"] = dict(
-    technique="static analysis: NULL-test-before-use and status liveness on clang CFG with call-graph may-allocate summaries",
-    text="Structural clauses over all of src/**: every allocator result is NULL-tested on every path before it "
-         "is dereferenced/indexed/passed to a memory routine or to a callee that dereferences that parameter; "
-         "the status of every callee that may allocate is consumed on every path (returned, tested, passed on, "
-         "or stored and read before it dies); functions initialising a Thrift codec test its sticky error "
-         "before returning OK; the NULL branch of every allocation test reports a failure (no success return, no return of "
-         "further work); resources are released/handed over exactly once on every path. Not "
-         "decided: success results when a NULL is tolerated rather than dereferenced; leak freedom on error "
-         "paths beyond the ownership rules.",
-    ref="DESIGN.md §3 C19")
+def _checks():
+    """text per property = the clause list the check itself records in its evidence (single source of truth) +
+    what is not decided (tools/not_decided.json)."""
+    nd = json.load(open(os.path.join(HERE, "tools", "not_decided.json")))
+    out = {}
+    for pid, tech in TECH.items():
+        evp = os.path.join(HERE, "evidence", pid + ".json")
+        clauses = []
+        if os.path.exists(evp):
+            clauses = json.load(open(evp)).get("coverage", {}).get("clauses_decided", [])
+        text = "Structural clauses decided: " + "; ".join(clauses) + ". Not decided: " + nd[pid]
+        out[pid] = dict(technique=tech, text=text, ref="DESIGN.md §3 " + pid, note=NOTES.get(pid))
+    return out
 
-CHECKS["C07"] = dict(
-    technique="static analysis: OpenMP parallel-region effect analysis over AST + whole-program call graph (dispatch slots resolved)",
-    text="Effect clauses: every write inside the two parallel regions of carquet_batch_reader_next is region-"
-         "local, selected by the loop index, a monotone flag, or inside omp critical/atomic; every mutable "
-         "file-scope/static-local variable of the library is thread-local or an accepted idempotent lazy "
-         "initialiser written only by its initialiser with the flag published last (plain or __atomic store); in every function "
-         "reachable from a region, positioned stdio on the shared stream is inside omp critical with seek and "
-         "read together, and no store reaches the shared reader/metadata/schema objects unprotected. Not "
-         "decided: equality of batches across thread counts; races inside zlib/zstd/libgomp.",
-    ref="DESIGN.md §3 C07",
-    note="Memory-model assumption for the accepted lazy-init idiom: x86-TSO, no compiler reordering across the flag store.")
-CHECKS["C14"] = dict(
-    technique="static analysis: CFG must-pass-through of the CRC comparison before consumers; cursor-skeleton abstract execution of the CRC routine over lengths 0..80",
-    text="Structural clauses: in all four page loaders no path with has_crc && verify_checksums reaches a "
-         "consumer of page bytes without the comparison of carquet_crc32(stored bytes, compressed_page_size) "
-         "with the header crc, and the mismatch arm returns CRC_MISMATCH; the writer checksums the bytes it "
-         "stores and enables CRC by default; the generator uses 0xEDB88320; abstract execution of the cursor "
-         "arithmetic of crc32_slicing_by_8 shows for every length 0..80 that reads stay in bounds and every "
-         "input byte is read; the header parser sets has_crc whenever field 4 is present. Not decided: equality with zlib for all inputs, incremental composition, the "
-         "CRC's detection algebra.",
-    ref="DESIGN.md §3 C14")
 
-CHECKS["C16"] = dict(
-    technique="static analysis: exhaustive abstract evaluation of the pruning tables over the sign domain, sibling switch-table agreement, CFG must-pass/dominance",
-    text="Structural clauses: the operator table of row_group_matches (6 operators x 6 feasible orderings) and the "
-         "interval tables of statistics_compare/range_overlaps/page_might_match clear the match flag only where "
-         "no value can match; comparators are called as cmp(probe, own bound); might_match=true precedes every "
-         "return, errors and absent statistics mean match, filter is ascending and capped; every "
-         "type->comparator switch agrees per physical type and typed types never use byte order; comparator "
-         "bodies order by their own type; floating min/max updates NaN-guarded; memcpy into min/max storage "
-         "bounded; every value reaches the update decision or invalidates the bounds; null count = "
-         "num_values - num_non_null; min/max polarity: every store into a min (max) slot reads only min (max) sources "
-         "and (pointer,size) argument pairs name one bound, across builder, Thrift struct, reader view and page index; a "
-         "value too long for the max storage is rejected, never stored as a truncated prefix. "
-         "Not decided: that written min/max bound every input; byte-array ordering "
-         "semantics of logical types.",
-    ref="DESIGN.md §3 C16")
-
-CHECKS["C17"] = dict(
-    technique="static analysis: switch-table extraction vs the textbook level definition, exhaustive abstract evaluation of sibling level expressions over the 3 repetition values, dominance",
-    text="Table clauses: the reader's walk adds (def,rep) = OPTIONAL (1,0), REPEATED (1,1), REQUIRED (0,0), passes the "
-         "accumulated pair to children, stores it at leaves, consumes exactly its subtree; builder, writer and node "
-         "accessors give the same levels for a flat leaf; one leaf predicate for counting and walking; "
-         "schema_ensure_capacity grows the four parallel arrays together and dominates every append; accessors "
-         "return the field of the same name; the reader's per-leaf arrays are written only by the recursive walk, which "
-         "every successful build_schema runs; byte offsets into typed arrays are element-scaled. Not decided: leaf order/levels for arbitrary trees under a rewritten "
-         "walk (a non-recursive rewrite makes the anchor vanish: exit 2, human review).",
-    ref="DESIGN.md §3 C17")
-
-CHECKS["C15"] = dict(
-    technique="static analysis: dispatch-table extraction + cross-unit prototype agreement; cursor-skeleton abstract execution of every kernel over all counts (buffer contents unknown)",
-    text="Structural clauses: all 19 dispatch slots get their scalar implementation before any override; overrides "
-         "in the order SSE4.2 < AVX2 < AVX-512, each under its capability flag, each kernel from the unit built for "
-         "that ISA and named for its slot; wrappers call their own slot with their own parameters; extern kernel "
-         "prototypes equal the definitions. Extents: for each of the ~80 kernels (three x86 units + scalar "
-         "fallbacks) the cursor arithmetic is executed abstractly for every count 0..N (N = 70/140/280 by ISA): "
-         "every load/store (masked forms by mask population) lies inside the contract extent of its buffer and "
-         "output kernels write their whole output; match_copy kernels use block copies only as wide as the guarded "
-         "match distance; kernels that inspect a buffer's address are analysed per alignment class 0..63. Not decided: output equality with the scalar definition; ARM "
-         "kernels (not in this build); adequacy of has_avx512f for the BW/VL encodings (observation in DESIGN.md).",
-    ref="DESIGN.md §3 C15")
-
-CHECKS["C02"] = dict(
-    technique="static analysis: sibling switch-table agreement, who-may-write over struct fields, paired-update and guard rules, index-space provenance typing on the resolved AST",
-    text="Structural clauses: the six type->value-size tables agree; the column reader's cursor fields are written "
-         "only by the page reader and a frozen set of co-writers; values_remaining and page_values_read move by "
-         "the same amount; current_page advances by header+compressed size only with page_loaded cleared and only "
-         "after the page was consumed; a whole-page hand-out requires page_values_read == 0; skip mutates state "
-         "only through read_batch; all scalar null-bitmap builders set a bit iff def < max_def and bitmaps start "
-         "zeroed; subscripts never mix the projection / file-column / schema-element / row-group index spaces "
-         "(provenance of the index vs the array's record+member). Not decided: dense-value offsets for nullable pages, equality of batch and column reader output.",
-    ref="DESIGN.md §3 C02")
-CHECKS["C03"] = dict(
-    technique="static analysis: sibling implementation diff over callee/header-field provenance feature sets; typestate on the ownership tag along CFG paths",
-    text="Structural clauses: the mmap and fread variants of the dictionary and data page loaders have equal "
-         "feature sets (parsers/decoders called, header field feeding each size argument, guards on header fields "
-         "and their error codes, header fields feeding the cursor fields) outside a reasoned allow-list; the three "
-         "footer readers reject short files, wrong trailing magic and oversized footer length; free(decoded_values) "
-         "is unreachable while the buffer may be a mapped view, a view is stored only with its VIEW tag, and the "
-         "published pointer is pointer arithmetic on file_reader->mmap_data on every definition (never a recycled "
-         "heap buffer). (Skip/peek cursor changes in the mmap-only paths are decided under C02.) Not decided: row alignment of batches across columns.",
-    ref="DESIGN.md §3 C03")
-
-CHECKS["C01"] = dict(
-    technique="static analysis: codec-table agreement, CFG must-pass/ordering, status liveness, encoder typestate, cursor-skeleton abstract execution with abstract length fields",
-    text="Necessary structural clauses: writer encoder table and reader decoder table name the same PLAIN codec per "
-         "type; finalize paths flush/append/reset in order and cover every column; every status on the write path is "
-         "consumed; the level encoder never pads mid-stream; PLAIN encoders append exactly what decoders consume "
-         "(counts 0..40); PLAIN BYTE_ARRAY accepts every exactly fitting page of 0..3 values with lengths in "
-         "{0,1,5} (trailing empty strings included), rejects short pages, stays inside the page; the codec tag alone "
-         "selects raw bytes vs codec stream in compress_data, decompress_page and the loaders (no size-based "
-         "shortcut). Not decided: value "
-         "and null-position equality, row-group partition, multi-batch-per-page level layout (known value-level "
-         "limitation, DESIGN.md).",
-    ref="DESIGN.md §3 C01")
-CHECKS["C05"] = dict(
-    technique="static analysis: Thrift grammar extraction vs frozen parquet.thrift, enum tables, reaching-definition rules on page header sizes/CRC, who-may-write on offsets, cross-unit declaration agreement",
-    text="Structural clauses: every (struct, id, wire type) written by the metadata writers and the hand-rolled page "
-         "header equals parquet.thrift with required fields unconditional; raw enum tags equal the specification; "
-         "page header sizes are the sizes of compress_data's input/output, CRC and counts come from the stored "
-         "bytes/state, page layout rep|def|values; emitted LZ offsets fit 16 bits; file_offset changes only by "
-         "written sizes; chunk offsets from a running offset; duplicated struct definitions and extern prototypes "
-         "agree across units; a chunk tagged with a codec only ever stores that compressor's output. Not decided: acceptance by an independent reader, byte-determinism, payload validity.",
-    ref="DESIGN.md §3 C05")
-CHECKS["C06"] = dict(
-    technique="static analysis: switch exhaustiveness/defaults, page-type admission vs header-member use, exhaustive abstract evaluation of the level-width functions over 0..32767, provenance of widths",
-    text="Structural clauses: unknown codecs/encodings/types are rejected by error defaults; each loader admits exactly "
-         "the page type whose header member it consumes (DATA_PAGE_V2 refused); reader's and writer's "
-         "bit_width_for_max equal the bit length for every level 0..32767; level widths derive from the column's max "
-         "level, index width from the page byte; enum tags equal parquet.thrift; page bytes are interpreted by the "
-         "codec tag alone (only the UNCOMPRESSED arm copies raw bytes); no big-endian byte accumulation on the decoding "
-         "side. Not decided: decoded values/levels "
-         "equal the stored ones; nested reconstruction.",
-    ref="DESIGN.md §3 C06")
-CHECKS["C09"] = dict(
-    technique="static analysis: dominance of capacity guards over stores, codec-pair table agreement, constant range of emitted offsets",
-    text="Capacity clauses: in the built-in compressors the dst_capacity < compress_bound(src_size) refusal dominates "
-         "every store through dst; zlib/zstd wrappers pass dst/dst_capacity unchanged; compress_data pairs each "
-         "codec's bound with its compressor, allocates `bound` and passes it as capacity; match distances admitted by "
-         "the compressors fit the two offset bytes emitted; decompressors report op - dst under capacity checks; block "
-         "copies from the output's own history (decoders and match_copy kernels) are nested in a guard distance >= "
-         "width. Not "
-         "decided: round trip; sufficiency of the bound formulas.",
-    ref="DESIGN.md §3 C09")
-CHECKS["C11"] = dict(
-    technique="static analysis: encoder typestate on the pad store; cursor-skeleton abstract execution of count-driven codecs; implicit-narrowing rule on the typed AST",
-    text="Structural clauses: the hybrid encoder's pad store runs only with a full/empty group or as the last emission "
-         "of flush; PLAIN (all fixed-width types, BOOLEAN, FIXED_LEN) and BYTE_STREAM_SPLIT encoders/decoders "
-         "produce/consume exactly count*width bytes with exact extents for counts 0..40 and refuse short inputs; no "
-         "implicit 64->32-bit narrowing of a non-constant exists in the codec and file layers; DELTA_BYTE_ARRAY encoder "
-         "and decoder advance their predecessor reference on every iteration; widths come from unsigned maxima; the hybrid "
-         "encoder writes pending literals before a run from every control state (0..7 pending x run 1..40). Not decided: "
-         "decode(encode(v)) = v for DELTA_*, dictionary, RLE; streaming/one-shot agreement.",
-    ref="DESIGN.md §3 C11")
-
-CHECKS["C04"] = dict(
-    technique="static analysis: untrusted-field obligations with dominance on clang CFG, argument provenance, recursion guards on the call graph, path-sensitive ownership, index-argument and error-report must-pass rules",
-    text="Structural clauses: mapped pointers are formed from footer/page-header offsets only after a check against "
-         "the mapped size; page_extent_ok dominates every consumer of page bytes and the byte counts paired with "
-         "mapped pointers are the checked field; negative counts rejected before sizing memset/allocation; "
-         "dictionary copy bounded by the page size; Thrift list counts validated before sizing allocations/loops; "
-         "num_children loops also stop at the element count; recursion guarded; reader functions release what they "
-         "acquire on every path; every index parameter is range-checked before subscripting; every error exit with "
-         "an error object reports through CARQUET_SET_ERROR or a failing callee, message bounded; a buffer member set "
-         "to NULL has its capacity member reset before the capacity is read again; per-leaf arrays are sized and filled "
-         "under one leaf predicate. Not decided: "
-         "arithmetic adequacy of every guard, running-time bounds, statistics value sizes (noted in DESIGN.md).",
-    ref="DESIGN.md §3 C04")
-CHECKS["C08"] = dict(
-    technique="static analysis: zone-style cursor-bounds dataflow on clang CFG, cursor-skeleton abstract execution of count-driven decoders, array-index invariants, recursion and ownership rules",
-    text="Structural clauses: in the hand-written decoders (snappy, lz4, rle, delta, delta-length, delta-strings, "
-         "dictionary, plain, thrift/buffer readers) every access through an input/output cursor is covered on every "
-         "path by an established bound (constant or symbolic, with counted-loop and lock-step summaries); sub-buffers "
-         "travel with their exact remaining length or a declared extent; bit unpackers/PLAIN/BYTE_STREAM_SPLIT read "
-         "and write exactly their extents for all counts/widths; indices into fixed-size decoder state are bounded "
-         "by guards, validated header invariants or bounded fields whose constants fit the array lengths; index "
-         "guards are sign-safe; recursion guarded; temporaries released on every exit. Not decided: termination "
-         "bounds, oversized shifts, safety inside zlib/zstd.",
-    ref="DESIGN.md §3 C08")
+CHECKS = _checks()
 
 NOT_APPLICABLE = {
     "C10": "conformance of Snappy/LZ4 streams to the external grammars is a statement about emitted/accepted byte values; no structural clause beyond the decoder bounds already decided under C08 (DESIGN.md §6)",
